@@ -781,3 +781,28 @@ Proof.
   - intros [[A B] C]. apply feqb_bits_eq in C. auto.
   - intros (A & B & C). rewrite A, B. rewrite <- C. now rewrite feqb_bits_refl.
 Qed.
+
+(* ---- histories: the model has no state, so the answer to a call is the same after every history ---- *)
+Inductive query :=
+| QueryEid (id : string) (opt : Z)       (* GetPointOnExtendedSpatialId *)
+| QuerySid (id : string) (opt : Z).      (* GetPointOnSpatialId *)
+Section History.
+  Variable m_sinh m_atan : pfloat -> pfloat.
+  Definition answer (q : query) : result (list point) :=
+    match q with
+    | QueryEid id o => point_on_eid_api m_sinh m_atan id o
+    | QuerySid id o => point_on_sid_api m_sinh m_atan id o
+    end.
+  (* a history of calls answered one after the other *)
+  Definition run_history (h : list query) : list (result (list point)) := map answer h.
+
+  Theorem history_step h n q : nth_error h n = Some q -> nth_error (run_history h) n = Some (answer q).
+  Proof. intros H. unfold run_history. now apply map_nth_error. Qed.
+  (* whatever was asked before (valid or refused, the same ID or another one) and whatever is asked afterwards, the answer to q is [answer q] *)
+  Theorem history_independent pre pre' post post' q :
+    nth_error (run_history (pre ++ q :: post)) (List.length pre) = Some (answer q) /\
+    nth_error (run_history (pre' ++ q :: post')) (List.length pre') = Some (answer q).
+  Proof.
+    split; apply history_step; rewrite nth_error_app2 by apply Nat.le_refl; now rewrite Nat.sub_diag.
+  Qed.
+End History.
